@@ -413,7 +413,7 @@ def run_shard(spec, M):
                 text = edge_document(i)
                 M.count("edge_documents")
             elif fam == "noisy":
-                text = noisy.text_of(noisy.gen(r, 25), final=r.random() < 0.8)
+                text = noisy.text_of(noisy.gen_any(r, 25), final=r.random() < 0.8)
             else:
                 R = docmodel.render(r, size="small", nl="\n")
                 text, _ = workloads.faulted(r, R)
